@@ -1,19 +1,26 @@
-import NdnProofs.Lemmas.PitRun
+import NdnProofs.Lemmas.PitTies
 /-!
 # C03 — every expressed Interest completes exactly once with the right outcome
 
 Theorems about `Ndn.Pit.run fe evs` (model of the pending-Interest bookkeeping of `appv2.py` and `app.py`,
 see `NdnModel/Pit.lean`), for **both front-ends** and **every event history** `evs : List Ev`
-(express / Data / Nack / tick / caller cancellation / shutdown, in any order and number; induction over the
-history with the invariant `Ndn.Pit.Inv` relating trie, node objects and per-Interest states).
+(express — with any lifetime incl. 0, awaited at once or later, with or without `no_response` — / Data / Nack /
+tick / caller cancellation / shutdown / `reach`, in any order and number; induction over the history with the
+invariant `Ndn.Pit.Inv` relating trie, node objects and per-Interest states).
 
 Specification vocabulary (`NdnProofs/Lemmas/PitSpec.lean`; none of it mentions trie, nodes or lists):
-`Matches`, `Named`, `taken`, `specFire`, `specReact` (what one event does to one request),
+`Matches`, `Named`, `taken`, `resolve`, `specFire`, `specReact` (what one event does to one request),
 `Spec.step`/`Spec.run` (the abstract table: all requests react independently), `reqTrace` (the life of one
 request as a function of its own parameters and the events), `Justified` (what in the history justifies a
-state), `WFEv` (lifetimes are positive).
+state), `NoTie` (no packet is handled ahead of the timers of its instant).
 
 A state `.done o t` of Interest `i` is its completion record (outcome `o`, time `t`).
+
+**Ties.**  Events that share an event-loop turn with each other or with a timer (`Turn`) may run in any order.
+`lins h` are the linearisations of a history of turns `h` (plain histories in which a packet handled ahead of the
+timers of its instant is preceded by `reach t` instead of `tick t`), `allowed fe h` the outcome vectors they lead to,
+`reachable fe h` the set of final states as the driver computes it.  Every theorem below is about an arbitrary
+plain history, hence about every linearisation; the `tie_*` theorems say so for `reachable` / `allowed`.
 -/
 namespace Ndn.C03
 open Ndn Ndn.Pit
@@ -35,9 +42,17 @@ theorem complete_at_most_once (fe : FrontEnd) (evs evs' : List Ev) (i : Nat) (o 
     (h : (run fe evs).sts[i]? = some (.done o t)) : (run fe (evs ++ evs')).sts[i]? = some (.done o t) :=
   done_stable fe evs evs' i o t h
 
-/-- **nothing_remains.** A completed Interest has no entry in any node linked in the trie. -/
+/-- **nothing_remains.** A completed Interest has no entry in any node linked in the trie.  (The same holds for
+    every Interest that is not waiting: one whose Data is with the validator, one whose result is held for a
+    late await.) -/
 theorem nothing_remains (fe : FrontEnd) (evs : List Ev) (i : Nat) (o : Outcome) (t : Nat)
     (h : (run fe evs).sts[i]? = some (.done o t)) :
+    ∀ b ∈ (run fe evs).trie, i ∉ pend (run fe evs) b.2 :=
+  fun _ hb => (inv_run fe evs).not_mem_of_not_waiting (by rw [h]; simp) hb
+
+/-- a result held for a late await has no entry left either -/
+theorem nothing_remains_held (fe : FrontEnd) (evs : List Ev) (i : Nat) (o : Outcome)
+    (h : (run fe evs).sts[i]? = some (.held o)) :
     ∀ b ∈ (run fe evs).trie, i ∉ pend (run fe evs) b.2 :=
   fun _ hb => (inv_run fe evs).not_mem_of_not_waiting (by rw [h]; simp) hb
 
@@ -63,39 +78,52 @@ theorem pit_empty_at_quiescence (fe : FrontEnd) (evs : List Ev)
 
 /-- **one_data_all_matching_no_others.** One Data is taken by every waiting Interest it matches (same name, or a
     longer name with CanBePrefix; the packet digest when the Interest has an implicit digest) - each of them gets
-    `taken` (its validator answers at once, or it is now validating) - and no other Interest changes. -/
+    `taken` (its validator answers at once, or it is now validating; the answer is held when nobody awaits yet) -
+    and no other Interest changes. -/
 theorem one_data_all_matching_no_others (fe : FrontEnd) (evs : List Ev) (nm : Name) (dg d : Nat) (i : Nat)
     (I : Interest) (s : IState) (hi : (run fe evs).ints[i]? = some I) (hs : (run fe evs).sts[i]? = some s) :
     (run fe (evs ++ [.data nm dg d])).sts[i]? =
       some (if s = .waiting ∧ Matches I.toReq nm dg then taken fe (run fe evs).clock I.toReq d else s) := by
   rw [run_snoc]; exact (step_old (inv_run fe evs) fe _ hi hs).2.1
 
-/-- A Nack finishes exactly the waiting Interests it names (name and implicit digest), with its reason. -/
+/-- A Nack resolves exactly the waiting Interests it names (name and implicit digest), with its reason: they finish
+    at once, or - not awaited yet - hold the Nack for their first await. -/
 theorem nack_exactly_the_named (fe : FrontEnd) (evs : List Ev) (nm : Name) (dg : Option Nat) (rsn : Nat) (i : Nat)
     (I : Interest) (s : IState) (hi : (run fe evs).ints[i]? = some I) (hs : (run fe evs).sts[i]? = some s) :
     (run fe (evs ++ [.nack nm dg rsn])).sts[i]? =
-      some (if s = .waiting ∧ Named I.toReq nm dg then .done (.nack rsn) (run fe evs).clock else s) := by
+      some (if s = .waiting ∧ Named I.toReq nm dg then resolve (run fe evs).clock I.toReq (.nack rsn) else s) := by
   rw [run_snoc]; exact (step_old (inv_run fe evs) fe _ hi hs).2.1
 
-/-- A caller cancellation finishes its own Interest (unless already finished) and touches no other. -/
+/-- A caller cancellation finishes its own Interest (unless already finished, or not awaited yet) and touches no
+    other. -/
 theorem cancel_only_its_target (fe : FrontEnd) (evs : List Ev) (j i : Nat)
     (I : Interest) (s : IState) (hi : (run fe evs).ints[i]? = some I) (hs : (run fe evs).sts[i]? = some s) :
-    (run fe (evs ++ [.cancel j])).sts[i]? = some (if j = i then specCancel (run fe evs).clock s else s) := by
+    (run fe (evs ++ [.cancel j])).sts[i]? =
+      some (if j = i then specCancel (run fe evs).clock I.toReq s else s) := by
   rw [run_snoc]; exact (step_old (inv_run fe evs) fe _ hi hs).2.1
 
-/-- A clock tick fires exactly the due timers of each Interest (`specFire`). -/
+/-- A clock tick fires exactly the due timers of each Interest (`specFire`: deadline, end of validation, first
+    await of a held result). -/
 theorem tick_fires_due_timers (fe : FrontEnd) (evs : List Ev) (t : Nat) (i : Nat)
     (I : Interest) (s : IState) (hi : (run fe evs).ints[i]? = some I) (hs : (run fe evs).sts[i]? = some s) :
     (run fe (evs ++ [.tick t])).sts[i]? = some (specFire fe (max (run fe evs).clock t) I.toReq s) := by
   rw [run_snoc]; exact (step_old (inv_run fe evs) fe _ hi hs).2.1
 
+/-- `reach t` (a packet of instant `t` is about to be handled ahead of the timers of that instant) fires exactly the
+    timers due before `t`. -/
+theorem reach_fires_earlier_timers (fe : FrontEnd) (evs : List Ev) (t : Nat) (i : Nat)
+    (I : Interest) (s : IState) (hi : (run fe evs).ints[i]? = some I) (hs : (run fe evs).sts[i]? = some s) :
+    (run fe (evs ++ [.reach t])).sts[i]? = some (specReach fe (max (run fe evs).clock t) I.toReq s) := by
+  rw [run_snoc]; exact (step_old (inv_run fe evs) fe _ hi hs).2.1
+
 /-- **complete_exactly_once_after (shutdown).** Right after a shutdown no Interest is waiting (every waiting one was
-    cancelled at that instant; one whose Data was already taken is left to its validator) and the trie is empty. -/
+    cancelled at that instant - the caller learns it now, or at its first await; one whose Data was already taken is
+    left to its validator) and the trie is empty. -/
 theorem complete_exactly_once_after_shutdown (fe : FrontEnd) (evs : List Ev) :
     (run fe (evs ++ [.shutdown])).trie = [] ∧
     (∀ i : Nat, (run fe (evs ++ [.shutdown])).sts[i]? ≠ some IState.waiting) ∧
-    ∀ i : Nat, (run fe evs).sts[i]? = some IState.waiting →
-      (run fe (evs ++ [.shutdown])).sts[i]? = some (IState.done .cancelled (run fe evs).clock) := by
+    ∀ (i : Nat) (I : Interest), (run fe evs).ints[i]? = some I → (run fe evs).sts[i]? = some IState.waiting →
+      (run fe (evs ++ [.shutdown])).sts[i]? = some (resolve (run fe evs).clock I.toReq .cancelled) := by
   have hinv := inv_run fe evs
   rw [run_snoc]
   obtain ⟨_, b, _, _, _, e, _, g⟩ := shutdown_eff hinv
@@ -107,15 +135,34 @@ theorem complete_exactly_once_after_shutdown (fe : FrontEnd) (evs : List Ev) :
     have := (hinv'.waiting i (step fe (run fe evs) .shutdown).ints[i] (by simp [hlt]) hw).1
     change _ ∈ (onShutdown (run fe evs)).trie at this
     rw [e] at this; simp at this
-  · intro i hw
-    have hlt : i < (run fe evs).ints.length := by
-      rw [← hinv.len]; exact (List.getElem?_eq_some_iff.mp hw).1
-    have := g i (run fe evs).ints[i] .waiting (by simp [hlt]) hw
+  · intro i I hi hw
+    have := g i I .waiting hi hw
     simp only [if_true] at this
     exact this
 
-/-- **complete_exactly_once_after (deadline).** After a tick at or beyond its deadline an Interest is not waiting any
-    more, in either front-end; in the current front-end it has its completion record (together with
+/-- the first await never comes after the effective deadline (`expiry`) -/
+theorem await_le_deadline (fe : FrontEnd) (evs : List Ev) (i : Nat) (I : Interest)
+    (hi : (run fe evs).ints[i]? = some I) : I.awaitAt ≤ I.deadline := by
+  induction evs using list_rev_induction generalizing i I with
+  | h0 => simp [run, init] at hi
+  | hs l ev ih =>
+    rw [run_snoc] at hi
+    cases hx : isExpress ev with
+    | false =>
+      rw [(step_eff_nonexpress (inv_run fe l) fe ev hx).2.2.1] at hi
+      exact ih i I hi
+    | true =>
+      cases ev with
+      | express nm imp cbp life v lat defer nr =>
+        obtain ⟨_, _, _, _, nid, f⟩ := step_eff_express (inv_run fe l) fe nm imp cbp life v lat defer nr
+        rw [f] at hi
+        rcases getElem?_concat_cases hi with h0 | ⟨_, h1⟩
+        · exact ih i I h0
+        · rw [h1]; exact expiry_ge fe _ life defer
+      | _ => simp [isExpress] at hx
+
+/-- **complete_exactly_once_after (deadline).** After a tick at or beyond its (effective) deadline an Interest is not
+    waiting any more, in either front-end; in the current front-end it has its completion record (together with
     `complete_at_most_once`: exactly one, for ever).  In the legacy front-end it may still be validating a Data
     taken before the deadline (finding F15: the validator runs outside `wait_for`). -/
 theorem complete_exactly_once_after_deadline (fe : FrontEnd) (evs : List Ev) (t : Nat) (i : Nat) (I : Interest)
@@ -128,83 +175,219 @@ theorem complete_exactly_once_after_deadline (fe : FrontEnd) (evs : List Ev) (t 
   rw [tick_fires_due_timers fe evs t i I _ hi hs]
   generalize (run fe evs).sts[i] = s
   have hd' : I.toReq.deadline ≤ max (run fe evs).clock t := hd
+  have ha : I.toReq.awaitAt ≤ max (run fe evs).clock t := Nat.le_trans (await_le_deadline fe evs i I hi) hd
   constructor
   · cases s with
     | waiting => simp [specFire, hd']
     | done o t' => simp [specFire]
+    | held o => simp [specFire, ha]
     | validating d fin => exact fun h => specFire_ne_waiting_of (by simp) (Option.some.inj h)
   · intro hfe; subst hfe
     cases s with
     | waiting => exact ⟨.timeout, I.deadline, by simp [specFire, hd']⟩
     | done o t' => exact ⟨o, t', by simp [specFire]⟩
+    | held o => exact ⟨o, I.awaitAt, by simp [specFire, ha]⟩
     | validating d fin =>
       simp only [specFire]
       cases validatorOutcome .v2 I.verdict d with
       | none => exact ⟨.timeout, I.deadline, by simp [hd']⟩
       | some o =>
         by_cases hf : fin ≤ max (run .v2 evs).clock t ∧ fin < I.deadline
-        · exact ⟨o, fin, by simp [hf]⟩
+        · exact ⟨o, max fin I.awaitAt, by simp [hf, ha]⟩
         · exact ⟨.timeout, I.deadline, by simp [hf, hd']⟩
 
-/-- **outcome_correct.** Whatever state an Interest is in after a history with positive lifetimes is justified by
-    that history (`Justified`):
+/-- **outcome_correct.** Whatever state an Interest is in after a history - any history: lifetime 0, late awaits,
+    `no_response` and same-turn ties included - is justified by that history (`Justified`):
     * a payload / validation failure / validator error for Data `d`: a Data with that content matching the
-      Interest arrived while it was waiting and before its deadline, the supplied validator's answer maps to
-      exactly this outcome, the time is arrival + validator latency and (current front-end) before the deadline;
-    * `timeout`: stamped with the deadline, and the deadline has passed;
-    * `nack r`: a Nack with reason `r` naming exactly this Interest arrived while it was waiting, at that time;
-    * `cancelled`: the caller cancelled this Interest, or the application shut down, at that time;
-    * still waiting: the deadline has not been reached; validating: the Data was taken as above. -/
-theorem outcome_correct (fe : FrontEnd) (evs : List Ev) (hwf : ∀ ev ∈ evs, WFEv ev) (i : Nat) (I : Interest)
+      Interest arrived while it was waiting and not after its deadline (`TakenAt`), the supplied validator's answer
+      maps to exactly this outcome, the future was resolved at validator start + latency (current front-end: before
+      the deadline, or in the instant the Data came) and the caller learnt it then or, awaiting later, at its first
+      await;
+    * `timeout`: stamped with the effective deadline (`expiry`), and the deadline has come;
+    * `nack r`: a Nack with reason `r` naming exactly this Interest arrived while it was waiting;
+    * `cancelled`: the caller cancelled this Interest, or the application shut down;
+    * `noResponse`: expressed with `no_response` (current front-end), at that time;
+    * still waiting: the deadline has not passed; validating: the Data was taken as above; held: resolved as
+      above, the first await is still to come. -/
+theorem outcome_correct (fe : FrontEnd) (evs : List Ev) (i : Nat) (I : Interest)
     (s : IState) (hi : (run fe evs).ints[i]? = some I) (hs : (run fe evs).sts[i]? = some s) :
     Justified fe evs i I.toReq s := by
   have href := run_refines fe evs
-  apply spec_justified fe evs hwf i I.toReq s
+  apply spec_justified fe evs i I.toReq s
   · rw [← href]; simp [abs, hi]
   · rw [← href]; exact hs
+
+/-- **outcome_correct (no ties).** In a history without ties (`NoTie`: no packet handled ahead of the timers of its
+    instant) a Data is only ever taken strictly before the deadline, and a waiting Interest has not reached it. -/
+theorem outcome_correct_no_tie (fe : FrontEnd) (evs : List Ev) (hn : NoTie evs) (i : Nat) (I : Interest)
+    (hi : (run fe evs).ints[i]? = some I) :
+    (∀ d a, TakenAt fe evs i I.toReq d a → a < I.deadline) ∧
+    ((run fe evs).sts[i]? = some .waiting → (run fe evs).clock < I.deadline) := by
+  have href := run_refines fe evs
+  have hr : (Spec.run fe evs).reqs[i]? = some I.toReq := by rw [← href]; simp [abs, hi]
+  refine ⟨fun d a hT => taken_before_deadline fe evs hn hr hT, fun hw => ?_⟩
+  have := waiting_before_deadline fe evs hn i I.toReq hr (by rw [← href]; exact hw)
+  rw [← href] at this; exact this
 
 /-- **frame.** The state of an Interest after any history is a function (`reqTrace`) of its own request, its
     index, the clock at express time and the events that followed - whatever else was expressed before or after,
     on the same, nested or other names, and whatever happened to those Interests. -/
 theorem frame (fe : FrontEnd) (pre post : List Ev) (nm : Name) (imp : Option Nat) (cbp : Bool) (life : Nat)
-    (v : Verdict) (lat : Nat) :
-    (run fe (pre ++ .express nm imp cbp life v lat :: post)).sts[(run fe pre).ints.length]? =
-      some (reqTrace fe (run fe pre).ints.length ⟨nm, imp, cbp, (run fe pre).clock + life, v, lat⟩
-        (run fe pre).clock .waiting post) := by
+    (v : Verdict) (lat defer : Nat) (nr : Bool) :
+    (run fe (pre ++ .express nm imp cbp life v lat defer nr :: post)).sts[(run fe pre).ints.length]? =
+      some (reqTrace fe (run fe pre).ints.length (mkReq fe (run fe pre).clock nm imp cbp life v lat defer)
+        (run fe pre).clock
+        (specFire fe (run fe pre).clock (mkReq fe (run fe pre).clock nm imp cbp life v lat defer)
+          (initSt fe (run fe pre).clock nr)) post) := by
   have hinv := inv_run fe pre
-  obtain ⟨a, _, c, e, nid, f⟩ := step_eff_express hinv fe nm imp cbp life v lat
-  have h1 : run fe (pre ++ .express nm imp cbp life v lat :: post) =
-      post.foldl (step fe) (step fe (run fe pre) (.express nm imp cbp life v lat)) := by
+  obtain ⟨a, _, c, e, nid, f⟩ := step_eff_express hinv fe nm imp cbp life v lat defer nr
+  have h1 : run fe (pre ++ .express nm imp cbp life v lat defer nr :: post) =
+      post.foldl (step fe) (step fe (run fe pre) (.express nm imp cbp life v lat defer nr)) := by
     simp [run, List.foldl_append]
   rw [h1, trace_from fe post a (i := (run fe pre).ints.length)
-    (I := ⟨⟨nm, imp, cbp, (run fe pre).clock + life, v, lat⟩, nid⟩) (s := .waiting)
+    (I := ⟨mkReq fe (run fe pre).clock nm imp cbp life v lat defer, nid⟩)
+    (s := specFire fe (run fe pre).clock (mkReq fe (run fe pre).clock nm imp cbp life v lat defer)
+      (initSt fe (run fe pre).clock nr))
     (by rw [f]; simp) (by rw [e, ← hinv.len]; simp), c]
+
+/-- **no_response (current front-end).** An Interest expressed with `no_response` is off the books from the start:
+    its record says so, for ever, and the table of pending Interests is what it was. -/
+theorem no_response_off_the_books (evs evs' : List Ev) (nm : Name) (imp : Option Nat) (cbp : Bool) (life : Nat)
+    (v : Verdict) (lat defer : Nat) :
+    (run .v2 (evs ++ .express nm imp cbp life v lat defer true :: evs')).sts[(run .v2 evs).ints.length]? =
+      some (.done .noResponse (run .v2 evs).clock) ∧
+    (run .v2 (evs ++ [.express nm imp cbp life v lat defer true])).trie = (run .v2 evs).trie ∧
+    (run .v2 (evs ++ [.express nm imp cbp life v lat defer true])).heap = (run .v2 evs).heap := by
+  refine ⟨?_, ?_, ?_⟩
+  · have h0 : (run .v2 (evs ++ [.express nm imp cbp life v lat defer true])).sts[(run .v2 evs).ints.length]? =
+        some (.done .noResponse (run .v2 evs).clock) := by
+      have := frame .v2 evs [] nm imp cbp life v lat defer true
+      simpa [reqTrace, initSt, silent, specFire] using this
+    have := complete_at_most_once .v2 (evs ++ [.express nm imp cbp life v lat defer true]) evs' _ _ _ h0
+    simpa using this
+  · rw [run_snoc]; simp [step, onExpress, silent]
+  · rw [run_snoc]; simp [step, onExpress, silent]
+
+/-- the legacy front-end has no `no_response`: the keyword changes nothing -/
+theorem no_response_ignored_v1 (σ : State) (nm : Name) (imp : Option Nat) (cbp : Bool) (life : Nat)
+    (v : Verdict) (lat defer : Nat) :
+    step .v1 σ (.express nm imp cbp life v lat defer true) = step .v1 σ (.express nm imp cbp life v lat defer false) := by
+  simp [step, onExpress, silent]
+
+/-- **effective deadline.** Awaited at once: express time + lifetime - except lifetime 0 in the current front-end,
+    which is 100 ms; awaited `defer` later: legacy = await + lifetime; current = the original deadline when the
+    await comes before it, await + 100 ms otherwise. -/
+theorem expiry_cases (now life defer : Nat) :
+    expiry .v1 now life defer = now + defer + life ∧
+    (defer < life → expiry .v2 now life defer = now + life) ∧
+    (life ≤ defer → expiry .v2 now life defer = now + defer + 100) := by
+  refine ⟨rfl, ?_, ?_⟩
+  · intro h; simp only [expiry]; rw [if_pos (by omega)]
+  · intro h; simp only [expiry, grace]; rw [if_neg (by omega)]
+
+/-! ### ties: the theorems hold whichever way the events of a turn are ordered -/
+
+/-- `allowed` is the set of outcome vectors of the linearisations. -/
+theorem tie_allowed_iff (fe : FrontEnd) (h : List Turn) (v : List IState) :
+    v ∈ allowed fe h ↔ ∃ l ∈ lins h, (run fe l).sts = v := mem_allowed fe h v
+
+/-- The linearisations of one turn: every order (`List.Perm`) of its events, with the timers of the instant after
+    any number of them. -/
+theorem tie_turn_orders (u : Turn) (l : List Ev) :
+    l ∈ u.lins ↔ ∃ p, p.Perm u.evs ∧ ∃ k, k ≤ p.length ∧ l = Turn.lin u.t p k := Turn.mem_lins
+
+/-- The plain reading (timers first, events as listed) is always one of the linearisations. -/
+theorem tie_plain_allowed (fe : FrontEnd) (h : List Turn) : (run fe (plain h)).sts ∈ allowed fe h :=
+  (mem_allowed fe h _).mpr ⟨_, plain_mem_lins h, rfl⟩
+
+/-- The set of states the driver explores turn by turn is exactly the set of final states of the linearisations. -/
+theorem tie_reachable_exact (fe : FrontEnd) (h : List Turn) (σ : State) :
+    σ ∈ reachable fe h ↔ ∃ l ∈ lins h, run fe l = σ := mem_reachable fe h σ
+
+/-- refinement, whichever way the ties resolve -/
+theorem tie_refines_spec (fe : FrontEnd) (h : List Turn) : ∀ σ ∈ reachable fe h, ∃ l ∈ lins h, abs σ = Spec.run fe l := by
+  intro σ hσ
+  obtain ⟨l, hl, rfl⟩ := (mem_reachable fe h σ).mp hσ
+  exact ⟨l, hl, run_refines fe l⟩
+
+/-- no callback raises, whichever way the ties resolve -/
+theorem tie_no_internal_error (fe : FrontEnd) (h : List Turn) : ∀ σ ∈ reachable fe h, σ.errs = [] := by
+  intro σ hσ
+  obtain ⟨l, _, rfl⟩ := (mem_reachable fe h σ).mp hσ
+  exact no_internal_error fe l
+
+/-- a completion record never changes, whichever way the ties before and after it resolve: every state reachable
+    over `h ++ h'` extends a state reachable over `h` and keeps all its completion records -/
+theorem tie_complete_at_most_once (fe : FrontEnd) (h h' : List Turn) :
+    ∀ σ' ∈ reachable fe (h ++ h'), ∃ σ ∈ reachable fe h,
+      ∀ (i : Nat) (o : Outcome) (t : Nat), σ.sts[i]? = some (IState.done o t) → σ'.sts[i]? = some (IState.done o t) := by
+  intro σ' hσ'
+  obtain ⟨l, hl, rfl⟩ := (mem_reachable fe _ σ').mp hσ'
+  obtain ⟨a, ha, b, _, rfl⟩ := mem_lins_append.mp hl
+  exact ⟨run fe a, (mem_reachable fe h _).mpr ⟨a, ha, rfl⟩, fun i o t hd => complete_at_most_once fe a b i o t hd⟩
+
+/-- nothing of a finished Interest remains, whichever way the ties resolve -/
+theorem tie_nothing_remains (fe : FrontEnd) (h : List Turn) : ∀ σ ∈ reachable fe h, ∀ (i : Nat) (o : Outcome) (t : Nat),
+    σ.sts[i]? = some (IState.done o t) → ∀ b ∈ σ.trie, i ∉ pend σ b.2 := by
+  intro σ hσ i o t hd
+  obtain ⟨l, _, rfl⟩ := (mem_reachable fe h σ).mp hσ
+  exact nothing_remains fe l i o t hd
+
+/-- the table is empty when nobody waits, whichever way the ties resolve -/
+theorem tie_pit_empty_at_quiescence (fe : FrontEnd) (h : List Turn) : ∀ σ ∈ reachable fe h,
+    (∀ i : Nat, σ.sts[i]? ≠ some IState.waiting) → σ.trie = [] ∧ pitSize σ = (0, 0) := by
+  intro σ hσ hq
+  obtain ⟨l, _, rfl⟩ := (mem_reachable fe h σ).mp hσ
+  exact pit_empty_at_quiescence fe l hq
+
+/-- every state of every Interest is justified by the linearisation that led to it -/
+theorem tie_outcome_correct (fe : FrontEnd) (h : List Turn) : ∀ σ ∈ reachable fe h, ∃ l ∈ lins h, run fe l = σ ∧
+    ∀ i I s, σ.ints[i]? = some I → σ.sts[i]? = some s → Justified fe l i I.toReq s := by
+  intro σ hσ
+  obtain ⟨l, hl, rfl⟩ := (mem_reachable fe h σ).mp hσ
+  exact ⟨l, hl, rfl, fun i I s hi hs => outcome_correct fe l i I s hi hs⟩
+
+/-- frame, in every linearisation: the Interest expressed by the `k`-th event of a linearisation depends on its own
+    request and on the later events of that linearisation only -/
+theorem tie_frame (fe : FrontEnd) (h : List Turn) (l : List Ev) (_hl : l ∈ lins h) (pre post : List Ev) (nm : Name)
+    (imp : Option Nat) (cbp : Bool) (life : Nat) (v : Verdict) (lat defer : Nat) (nr : Bool)
+    (hsplit : l = pre ++ .express nm imp cbp life v lat defer nr :: post) :
+    (run fe l).sts[(run fe pre).ints.length]? =
+      some (reqTrace fe (run fe pre).ints.length (mkReq fe (run fe pre).clock nm imp cbp life v lat defer)
+        (run fe pre).clock
+        (specFire fe (run fe pre).clock (mkReq fe (run fe pre).clock nm imp cbp life v lat defer)
+          (initSt fe (run fe pre).clock nr)) post) := by
+  rw [hsplit]; exact frame fe pre post nm imp cbp life v lat defer nr
+
+/-- a history of turns without ties read plainly has no `reach` -/
+theorem tie_plain_no_tie (h : List Turn) (hp : Plain h) : NoTie (plain h) := noTie_plain hp
 
 /-! ### the hypotheses are satisfiable: concrete non-trivial histories -/
 
 /-- two Interests on one name, a Data for both, a late Nack, then a tick -/
 def demo : List Ev :=
-  [.express [1, 2] none false 50 .pass 0, .tick 10, .express [1, 2] none true 100 .fail 30,
-   .express [1] none true 100 .pass 0, .tick 20, .data [1, 2] 1 7, .nack [1, 2] none 150, .tick 60]
+  [.express [1, 2] none false 50 .pass 0 0 false, .tick 10, .express [1, 2] none true 100 .fail 30 0 false,
+   .express [1] none true 100 .pass 0 0 false, .tick 20, .data [1, 2] 1 7, .nack [1, 2] none 150, .tick 60]
 
 example : (run .v2 demo).sts = [.done (.data 7) 20, .done (.valFail 7 .fail) 50, .done (.data 7) 20] := by decide
 example : (run .v2 demo).errs = [] ∧ (run .v2 demo).trie = [] := by decide
 -- complete_at_most_once / nothing_remains: a completion record exists
 example : (run .v1 (demo.take 6)).sts[0]? = some (.done (.data 7) 20) := by decide
 -- one_data_all_matching_no_others: the third Interest (CanBePrefix, shorter name) matches, a sibling would not
-example : Matches (⟨[1], none, true, 100, .pass, 0⟩ : Req) [1, 2] 1 ∧ ¬ Matches (⟨[1, 3], none, true, 100, .pass, 0⟩ : Req) [1, 2] 1 := by
+example : Matches (⟨[1], none, true, 100, .pass, 0, 0⟩ : Req) [1, 2] 1 ∧
+    ¬ Matches (⟨[1, 3], none, true, 100, .pass, 0, 0⟩ : Req) [1, 2] 1 := by
   decide
 -- complete_exactly_once_after_deadline: an Interest whose deadline is reached by the tick
 example : ((run .v2 (demo.take 3)).ints[0]?).map (·.deadline) = some 50 := by decide
--- outcome_correct: the demo history has positive lifetimes
-example : ∀ ev ∈ demo, WFEv ev := by
-  intro ev hev
+-- outcome_correct_no_tie: the demo history has no ties
+example : NoTie demo := by
+  intro ev hev t
   simp only [demo, List.mem_cons, List.not_mem_nil, or_false] at hev
-  rcases hev with h | h | h | h | h | h | h | h <;> subst h <;> simp [WFEv]
+  rcases hev with h | h | h | h | h | h | h | h <;> subst h <;> simp
 -- a node that was unlinked while its validator runs, a new node under the same name, the old Interest's
 -- deadline: the new node survives (finding F6b is the failure of exactly this)
-example : (run .v2 [.express [1] none false 50 .pass 80, .data [1] 1 0, .express [1] none false 500 .pass 0, .tick 60]).trie
-    = [([1], 1)] := by decide
+example : (run .v2 [.express [1] none false 50 .pass 80 0 false, .data [1] 1 0,
+    .express [1] none false 500 .pass 0 0 false, .tick 60]).trie = [([1], 1)] := by decide
 
 -- nack_exactly_the_named / cancel_only_its_target / tick_fires_due_timers / one_data…: an expressed, waiting Interest
 example : (run .v1 (demo.take 3)).sts[1]? = some .waiting ∧
@@ -225,7 +408,86 @@ example : (run .v2 (demo.take 6 ++ [.shutdown])).sts =
 example : (run .v2 (demo.take 5 ++ [.shutdown])).sts =
     [.done .cancelled 20, .done .cancelled 20, .done .cancelled 20] := by decide
 -- frame: the second Interest of the demo, as a function of its own request and the later events
-example : reqTrace .v2 1 ⟨[1, 2], none, true, 110, .fail, 30⟩ 10 .waiting (demo.drop 3) = .done (.valFail 7 .fail) 50 := by
+example : reqTrace .v2 1 ⟨[1, 2], none, true, 110, .fail, 30, 10⟩ 10 .waiting (demo.drop 3) = .done (.valFail 7 .fail) 50 := by
   decide
+
+/-! #### lifetime 0 -/
+
+-- current front-end: lifetime 0 is a lifetime of 100 ms: a Data after 50 ms is returned, without one the timeout
+-- comes at 100
+example : (run .v2 [.tick 10, .express [1] none false 0 .pass 0 0 false, .tick 60, .data [1] 1 5, .tick 500]).sts =
+    [.done (.data 5) 60] := by decide
+example : (run .v2 [.tick 10, .express [1] none false 0 .pass 0 0 false, .tick 500]).sts = [.done .timeout 110] := by
+  decide
+-- legacy front-end: `wait_for(.., 0)` times out in the very instant of express; the entry is gone at once and a
+-- later Data finds nobody
+example : (run .v1 [.tick 10, .express [1] none false 0 .pass 0 0 false]).sts = [.done .timeout 10] ∧
+    (run .v1 [.tick 10, .express [1] none false 0 .pass 0 0 false]).trie = [] := by decide
+example : (run .v1 [.tick 10, .express [1] none false 0 .pass 0 0 false, .tick 50, .data [1] 1 5]).sts =
+    [.done .timeout 10] := by decide
+
+/-! #### no_response -/
+
+example : (run .v2 [.tick 10, .express [1] none false 50 .pass 0 0 true, .tick 40, .data [1] 1 5, .tick 500]).sts =
+    [.done .noResponse 10] := by decide
+-- ... and it does not get in the way of a proper Interest for the same name
+example : (run .v2 [.tick 10, .express [1] none false 50 .pass 0 0 true, .express [1] none false 50 .pass 0 0 false,
+    .tick 40, .data [1] 1 5]).sts = [.done .noResponse 10, .done (.data 5) 40] := by decide
+-- the legacy front-end ignores the keyword
+example : (run .v1 [.tick 10, .express [1] none false 50 .pass 0 0 true, .tick 40, .data [1] 1 5]).sts =
+    [.done (.data 5) 40] := by decide
+
+/-! #### late await (express at 10, lifetime 53) -/
+
+-- awaited 20 ms later, inside the lifetime: the original deadline stands (current), a fresh lifetime starts (legacy)
+example : (run .v2 [.tick 10, .express [1] none false 53 .pass 0 20 false, .tick 500]).sts = [.done .timeout 63] := by
+  decide
+example : (run .v1 [.tick 10, .express [1] none false 53 .pass 0 20 false, .tick 500]).sts = [.done .timeout 83] := by
+  decide
+-- awaited 60 ms later, after the lifetime: 100 ms of grace from the await (current): a Data 80 ms into the grace
+-- period is returned, one after it comes too late
+example : (run .v2 [.tick 10, .express [1] none false 53 .pass 0 60 false, .tick 150, .data [1] 1 5, .tick 500]).sts =
+    [.done (.data 5) 150] := by decide
+example : (run .v2 [.tick 10, .express [1] none false 53 .pass 0 60 false, .tick 180, .data [1] 1 5, .tick 500]).sts =
+    [.done .timeout 170] := by decide
+-- a Data that arrives before anybody awaits resolves the future; the caller gets it at its first await
+-- (the legacy front-end starts the validator only then)
+example : (run .v2 [.tick 10, .express [1] none false 53 .pass 0 60 false, .tick 40, .data [1] 1 5]).sts =
+    [.held (.data 5)] := by decide
+example : (run .v2 [.tick 10, .express [1] none false 53 .pass 0 60 false, .tick 40, .data [1] 1 5, .tick 500]).sts =
+    [.done (.data 5) 70] := by decide
+example : (run .v1 [.tick 10, .express [1] none false 53 .pass 44 60 false, .tick 40, .data [1] 1 5, .tick 500]).sts =
+    [.done (.data 5) 114] ∧
+    (run .v1 [.tick 10, .express [1] none false 53 .pass 44 60 false, .tick 40, .data [1] 1 5, .tick 500]).vcalls =
+    [(0, 5, 70)] := by decide
+-- before the first await there is nothing the caller could cancel
+example : (run .v2 [.tick 10, .express [1] none false 53 .pass 0 60 false, .tick 40, .cancel 0, .tick 500]).sts =
+    [.done .timeout 170] := by decide
+
+/-! #### ties -/
+
+/-- Interest with deadline 63; a matching Data arrives in the turn of instant 63 -/
+def tieDemo : List Turn :=
+  [⟨10, [.express [1] none false 53 .pass 0 0 false]⟩, ⟨63, [.data [1] 1 5]⟩, ⟨500, []⟩]
+
+-- the two orders give different outcomes, and both are allowed
+example : allowed .v2 tieDemo =
+    [[.done .timeout 63], [.done (.data 5) 63], [.done .timeout 63], [.done (.data 5) 63]] := by decide
+example : (reachable .v2 tieDemo).map (·.sts) = [[.done .timeout 63], [.done (.data 5) 63]] := by decide +kernel
+-- a burst: two Data for one Interest in one turn - either may be the one that is returned
+example : (reachable .v1 [⟨10, [.express [1] none true 53 .pass 0 0 false]⟩,
+    ⟨20, [.data [1] 1 5, .data [1, 2] 2 6]⟩]).map (·.sts) = [[.done (.data 5) 20], [.done (.data 6) 20]] := by
+  decide +kernel
+-- a caller's cancellation and a Nack in one turn
+example : (reachable .v2 [⟨10, [.express [1] none false 53 .pass 0 0 false]⟩,
+    ⟨20, [.cancel 0, .nack [1] none 150]⟩]).map (·.sts) = [[.done .cancelled 20], [.done (.nack 150) 20]] := by
+  decide +kernel
+-- without a timer due at the instant and with a single event the turn has one outcome
+example : (reachable .v2 [⟨10, [.express [1] none false 53 .pass 0 0 false]⟩, ⟨20, [.data [1] 1 5]⟩]).map (·.sts) =
+    [[.done (.data 5) 20]] := by decide +kernel
+example : Plain tieDemo := by
+  intro u hu ev hev t
+  simp only [tieDemo, List.mem_cons, List.not_mem_nil, or_false] at hu
+  rcases hu with h | h | h <;> subst h <;> simp at hev <;> subst hev <;> simp
 
 end Ndn.C03
